@@ -577,6 +577,17 @@ func TestC17(t *testing.T) {
 				}
 				break
 			}
+			if declared && size >= 3 && rapid.IntRange(0, 3).Draw(t, "otherorderfirst") == 0 {
+				// another enum column over the same values in another declared order (same length, same first value) was
+				// asked the same question just before: the rank of a constant belongs to the column it is compared with
+				alt := []string{enumConf[0]}
+				for i := len(enumConf) - 1; i >= 1; i-- {
+					alt = append(alt, enumConf[i])
+				}
+				other := qframe.New(map[string]interface{}{"e": data}, newqf.Enums(map[string][]string{"e": alt}))
+				_ = other.Filter(qframe.Filter{Column: "e", Comparator: comp, Arg: c, Inverse: inv})
+				opDesc += " (after the same comparison on a column declared in another order)"
+			}
 			cl = c17Combine(t, cl, ftab, &opDesc)
 			res := fq.Filter(cl.Build(hx.KindMap(ftab)))
 			if res.Err != nil {
